@@ -197,6 +197,34 @@ CHECKS = {
         note=TB + " optax.trace / scale / scale_by_schedule / add_decayed_weights enter by their documented update formulas (library contracts); eigh opaque.",
         technique="contract-based deductive verification: composition post-condition on the real chain, AST->VC, z3 (case analysis + polynomial normalisation)",
     ),
+    "C01": dict(
+        text=("The real matrix_inverse_pth_root (Newton and eigh routes), mat_power and the nested loop bodies are executed for a "
+              "symbolic matrix size n >= 1 (incl. the 1x1 branch), exponent p >= 1, relative/absolute ridge, padding None or "
+              "symbolic, with loop invariants on the three lax.while_loops: every name read is bound and every internal assertion "
+              "holds on every path; padding rows/columns of the Newton result are exactly zero (Pad invariant through mat_power, the "
+              "inner iteration and the retry loop, proved pointwise with the 'non-zero sum has a non-zero term' contraction axiom); "
+              "all-padding gives the zero matrix with error 0; and what is reported: error = max|M - I_masked| of the final tracked "
+              "iterate (>= 0), the retry ridge ridge_epsilon*max(max_ev,1e-25)*10^i on the masked identity, the convergence blend. "
+              "Accuracy/convergence, the residual algebra M = X^p(A+dI), eigh padding zeros and LOBPCG are not claimed."),
+        design="7/C01",
+        note=TB + " power_iteration enters as a contract (opaque vector and eigenvalue estimate); eigh opaque; termination not proved.",
+        technique="contract-based deductive verification: loop invariants on the real lax.while_loop bodies, AST->VC, z3",
+    ),
+    "C07": dict(
+        text=("Named internal-error sites and layout equalities proved by symbolic execution of the real init_fn/update_fn in the "
+              "tree-structure / shape / dtype view (root routine as a contract): for 15 option combinations (graft, intervals, "
+              "block_size 1, int8 momenta, metrics off, skip thresholds, INPUT/OUTPUT preconditioners, eigh, compression, reuse, "
+              "frequent directions +/- reuse / average_grad / reset) x 6 parameter trees (ranks 0..3, unit dims) x 2 updates nothing "
+              "but an explanatory rejection is raised, the update has the parameters' structure/shapes/dtype and the state layout is "
+              "a fixed point; in sharded mode declared shapes/dtypes and partition specs describe the tree sharded_init_fn builds and "
+              "every with_sharding_constraint argument has the spec's rank; lax.cond branch types agree for Tearfree Sketchy under "
+              "jax_enable_x64; Tearfree / SM3 layouts; shared shape-bookkeeping obligations of C06/C13. Whole-configuration-space "
+              "exception freedom is not claimed."),
+        design="7/C07",
+        note=TB + " Assertions with a message ('all layers are too small for compression_rank') count as explanatory rejections; "
+        "dtype promotion is modelled with weak python scalars; with_sharding_constraint requires rank(leaf) >= len(spec).",
+        technique="contract-based deductive verification: assertion/definedness/layout obligations from AST->VC symbolic execution in the shape/dtype/tree view, z3",
+    ),
 }
 
 NA_REASON = "check not built yet (build in progress); the planned contract kernel is described in DESIGN.md section 7"
